@@ -109,9 +109,12 @@ fn real_main() {
                 writeln!(o, "#{}", idx).unwrap();
                 o.flush().unwrap();
             }
-            unsafe { mem::alarm(20) };
+            // non-termination: 20 s of CPU time; a wall-clock backstop far beyond it (the machine may be loaded)
+            mem::cpu_limit(20);
+            unsafe { mem::alarm(900) };
             let mut ctx = Ctx { out: Vec::new(), place_end };
             let r = catch_unwind(AssertUnwindSafe(|| run_case(&mut ctx, &dom, &a)));
+            mem::cpu_limit(0);
             unsafe { mem::alarm(0) };
             let mut o = stdout.lock();
             for l in &ctx.out {
